@@ -79,7 +79,9 @@ def gen(rng, tier):
     if lc and isinstance(sub, dict) and 'A' not in sub:
         sub = {'A': True, 'pos': True}
     return {'world': world, 'knobs': C.gen_knobs(rng), 'cleaned': cleaned, 'plans': plans, 'subsamples': sub,
-            'convert_units': rng.random() < 0.8}
+            'convert_units': rng.random() < 0.8,
+            # the same list object is handed to every load that uses that request (a user keeps one `fields` list)
+            'share_request_objects': rng.random() < 0.5}
 
 
 def _col_bytes(t, c):
@@ -103,7 +105,8 @@ def run(case):
             nloads += 1
             try:
                 with C.environment(knobs, out['faults'] if nloads == 1 else None):
-                    cat = C.load(gd, cleaned=case['cleaned'] or bool(world.get('lc')), subsamples=copy.deepcopy(sub), fields=copy.deepcopy(fields),
+                    cat = C.load(gd, cleaned=case['cleaned'] or bool(world.get('lc')), subsamples=copy.deepcopy(sub),
+                                 fields=fields if case.get('share_request_objects') else copy.deepcopy(fields),
                                  convert_units=case['convert_units'])
                 return cat.halos
             except Exception as e:
